@@ -31,6 +31,98 @@ def written_magnitude(text):
     return None, None
 
 
+def parses_while_another_thread_declares(ctx, env, attempt):
+    """text is parsed in one thread while another declares units, aliases and prefixes of its own (names that occur in
+    none of the texts): every parse still ends in a Unit / Quantity - the one it ends in when nothing else runs - or in
+    ParseError / KeyError.  (a) under the deterministic scheduler, the threads stopped before every line they execute
+    anywhere (library, lark, standard library), seeded random schedules; (b) free-running with a 1 microsecond switch
+    interval"""
+    import sys
+    import threading
+
+    from .. import sched
+
+    m, rng = env.m, ctx.rng
+    Unit, Quantity = m.Unit, m.Quantity
+    symbols = [s for s in ("m", "s", "kg", "ft", "Hz", "N") if s in Unit._by_symbol]
+    unknown = ["Km", "metre", "5 Kg", "qqzq", "3 mtr/s", "kilo meter", "secs", "Mhz", "m/ss2", "7 lbs", "Ω·zz"]
+    known = [f"{a}/{b}" for a in symbols for b in symbols[:3]] + [f"3 {a}^2" for a in symbols] + [f"1.5 k{a}" for a in symbols[:2]]
+    texts = unknown + known
+    alone = {}
+    for t in texts:
+        for label, fn in (("Unit.parse", Unit.parse), ("Quantity.parse", Quantity.parse)):
+            alone[(label, t)] = attempt(fn, t)
+    uid = [0]
+
+    def declare_some(k=3):
+        def go():
+            for _ in range(k):
+                uid[0] += 1
+                nm = f"zqc17race{ctx.shard}x{uid[0]}"
+                r = uid[0] % 3
+                if r == 0:
+                    Unit.define(rng.choice([m.Length, m.Time, m.Mass]), nm, nm)
+                elif r == 1:
+                    Unit._by_name[rng.choice(["meter", "second"])].alias(name=nm) if "meter" in Unit._by_name else Unit.define(m.Length, nm, nm)
+                else:
+                    m.Prefix(7, 90000 + uid[0] + 100000 * ctx.shard, nm, nm)
+            return True
+        return go
+
+    def judge(label, t, got, how, case):
+        want = alone[(label, t)]
+        ctx.count("evaluations")
+        ctx.count(f"parses_while_another_thread_declares/{how}/{got[0]}")
+        ctx.distinct(("racing-parse", label, t, how, got[0]), True)
+        if got[0] == "other":
+            ctx.violation(f"C17:{label}:raised-{got[1]}:while-another-thread-declares", f"{label}({t!r}) raised {got[1]} while another thread was declaring units ({how}); alone it gives {want[0]}", case)
+        elif got[0] != want[0] or (got[0] == "ok" and got[1] != want[1]):
+            ctx.violation(f"C17:{label}:outcome-differs-while-another-thread-declares", f"{label}({t!r}) gave {got} while another thread was declaring units ({how}); alone it gives {want}", case)
+
+    # (a) deterministic scheduler, every line everywhere
+    for k in range(16 if ctx.tier == "quick" else 400):
+        t = rng.choice(unknown) if k % 4 else rng.choice(known)
+        label, fn = rng.choice([("Unit.parse", Unit.parse), ("Quantity.parse", Quantity.parse)])
+        run = sched.Run([lambda: attempt(fn, t), declare_some(2)], None, sched.EVERYWHERE, rng=rng, switch_prob=rng.choice([0.02, 0.1, 0.3])).go(timeout=60)
+        if run.watchdog_fired or 0 not in run.results:
+            ctx.count("parses_while_another_thread_declares/scheduler_incomplete")
+            continue
+        if 1 in run.errors:
+            ctx.count(f"parses_while_another_thread_declares/declaring_thread_raised_{type(run.errors[1]).__name__}")
+        judge(label, t, run.results[0], "line scheduler", {"text": t, "schedule": [c for c, _, _ in run.choices][:400]})
+    # (b) free-running
+    old = sys.getswitchinterval()
+    sys.setswitchinterval(1e-6)
+    stop = threading.Event()
+
+    def declarer():
+        go = declare_some(1)
+        import time
+        cap = uid[0] + (1500 if ctx.tier == "quick" else 20000)
+        while not stop.is_set():
+            if uid[0] >= cap:
+                time.sleep(0.001)   # enough of them: the tables must not grow without bound
+                continue
+            try:
+                go()
+            except Exception:
+                ctx.count("parses_while_another_thread_declares/declaring_thread_raised")
+            time.sleep(0.0002)
+
+    th = threading.Thread(target=declarer, daemon=True)
+    th.start()
+    try:
+        for k in range(400 if ctx.tier == "quick" else 20000):
+            t = rng.choice(texts)
+            label, fn = rng.choice([("Unit.parse", Unit.parse), ("Quantity.parse", Quantity.parse)])
+            judge(label, t, attempt(fn, t), "free-running", {"text": t})
+    finally:
+        stop.set()
+        th.join(10)
+        sys.setswitchinterval(old)
+    ctx.count("units_declared_by_the_racing_thread", uid[0])
+
+
 def run(ctx):
     # the last shard imports only a subset of the unit modules: symbol resolution depends on the whole table
     # and the shard before it imports the core package alone (no prefix has a symbol there) or with one small
@@ -152,6 +244,7 @@ def run(ctx):
         sup = str(k).translate(str.maketrans("-0123456789", "⁻⁰¹²³⁴⁵⁶⁷⁸⁹"))
         for text in (f"{sym}^{k}", f"{sym}{sup}", f"3 {sym}^{k}", f"2.5 {sym}{sup}/s"):
             one(text, "after_refused_operation")
+    parses_while_another_thread_declares(ctx, env, attempt)
     n = ctx.scale(120000, 10_000_000) // 2
     for i in range(n):
         text, kind = gen.any_text()
